@@ -319,6 +319,9 @@ func Generate(profile string, seed uint64, tier string) (*Scenario, error) {
 	case "C20c":
 		sc.Property = "C20"
 		genC20c(g, sc, tier)
+	case "C09c":
+		sc.Property = "C09"
+		genC09c(g, sc, tier)
 	default:
 		return genOther(g, sc, profile, tier)
 	}
@@ -491,6 +494,8 @@ func Execute(sc *Scenario) *Verdict {
 		return RunCrashScenario(sc)
 	case "C04c", "C20c":
 		return RunConcCrashScenario(sc)
+	case "C09c":
+		return RunC09cScenario(sc)
 	}
 	return execOther(sc)
 }
